@@ -210,10 +210,11 @@ pub fn gen_ops(r: &mut Rng, nblocks: usize, allow_clean: bool, snapshots: bool) 
 pub fn generate(seed: u64, prop: &str) -> Scenario {
     let mut r = Rng::new(seed ^ 0x51D0_0000);
     let cfg = gen_cfg(&mut r);
-    let n = r.urange(8, 60);
+    let n = if prop == "C08" { r.urange(6, 24) } else { r.urange(8, 60) };
     let rich = prop != "C01" || r.chance(1, 2);
     let invalid = match prop {
         "C01" | "C03" => r.urange(0, 3),
+        "C08" => r.urange(0, 2),
         "C06" | "C19" => r.urange(0, 2),
         _ => if r.chance(1, 4) { 1 } else { 0 },
     };
